@@ -89,6 +89,73 @@ def run(ck):
             if len(ck.samples) < 3 and len(res.trace) > 30:
                 ck.sample({'program': sc['program'], 'backend': sc['backend'], 'events': [X.ev_show(e) for e in res.trace[:30]]})
     b.flush()
+    cli_persistence(ck)
+
+
+# ---- the command-line path: what `jug execute` computed must be there for the NEXT process, on every backend that has
+#      a location (file store, keep-alive file store, in-memory store with its backing file) -------------------------
+CLI_JUGFILE = '''
+from jug import TaskGenerator, Tasklet
+@TaskGenerator
+def one(x):
+    return [x, x + 1]
+@TaskGenerator
+def two(a, b=0):
+    return (a, b)
+t1 = one(1)
+t2 = two(t1[1], b=t1)
+t3 = two([t2, t1[0]])
+'''
+CLI_EXPECTED = {'t1': [1, 2], 't2': (2, [1, 2]), 't3': ([(2, [1, 2]), 1], 0)}
+CLI_READER = '''
+import sys, json
+from jug import init, value
+store, space = init('jf.py', sys.argv[1])
+out = {}
+for k in ('t1', 't2', 't3'):
+    try:
+        out[k] = repr(value(space[k]))
+    except BaseException as e:
+        out[k] = 'ERR ' + type(e).__name__
+print('@@' + json.dumps(out))
+'''
+
+
+def cli_persistence(ck):
+    import json
+    import os
+    import subprocess
+    import sys
+    from . import core, jugrun
+    env = dict(os.environ, PYTHONPATH=core.REPO, PYTHONHASHSEED='0')
+    main = "import sys; from jug.jug import main; main(['jug'] + sys.argv[1:])"
+    for spec in ('jd', 'file_keepalive:jdk', 'dict_store:st.pkl'):
+        with jugrun.scratch_dir('jugv_c01cli_') as d:
+            with open(os.path.join(d, 'jf.py'), 'w') as f:
+                f.write(CLI_JUGFILE)
+            with open(os.path.join(d, 'reader.py'), 'w') as f:
+                f.write(CLI_READER)
+            runs = []
+            for args in (['execute', 'jf.py', '--will-cite', '--jugdir', spec, '--nr-wait-cycles', '1', '--wait-cycle-time', '0'],
+                         ['check', 'jf.py', '--jugdir', spec]):
+                p = subprocess.run([sys.executable, '-c', main] + args, cwd=d, env=env, stdout=subprocess.PIPE,
+                                   stderr=subprocess.STDOUT, text=True, timeout=120)
+                runs.append((args[0], p.returncode, p.stdout[-300:]))
+            p = subprocess.run([sys.executable, 'reader.py', spec], cwd=d, env=env, stdout=subprocess.PIPE,
+                               stderr=subprocess.STDOUT, text=True, timeout=120)
+            got = None
+            for line in p.stdout.splitlines():
+                if line.startswith('@@'):
+                    got = json.loads(line[2:])
+            want = {k: repr(v) for k, v in CLI_EXPECTED.items()}
+            ck.count('cli-persistence:' + spec.split(':')[0])
+            ck.case_total += 1
+            ck.distinct(('cli', spec), True)
+            if runs[0][1] != 0 or runs[1][1] != 0 or got != want:
+                ck.violation({'kind': 'impl-violation',
+                              'what': 'what `jug execute` computed is not there for the next process (%s)' % spec.split(':')[0],
+                              'jugdir': spec, 'jugfile': CLI_JUGFILE, 'execute_exit': runs[0][1], 'check_exit_in_a_new_process': runs[1][1],
+                              'values_in_a_new_process': got, 'expected': want, 'execute_output_tail': runs[0][2]})
 
 
 def replay(obj):
